@@ -55,10 +55,10 @@ var badTexts = []string{"var = 2;", "f(1, 2;", "1 +;", "{", "if (", "a b", "var 
 var lhsTexts = []string{"1 = 2", "a + 1 = 2", "var q = 1;\n 5 = q"}
 
 // ErrKinds lists the kinds of error-raising constructs (for coverage counts).
-var ErrKinds = []string{"unres", "callnf", "propundef", "newnf", "instof", "arrlen", "numfmt", "evalsyn", "jsoncyc", "thrown", "throwprim"}
+var ErrKinds = []string{"unres", "callnf", "propundef", "newnf", "instof", "arrlen", "numfmt", "evalsyn", "jsoncyc", "thrown", "throwprim", "misc"}
 
 // CtxKinds lists the nesting contexts.
-var CtxKinds = []string{"fdecl", "fexpr", "nfe", "mdot", "midx", "ctor", "bound", "call", "apply", "foreach", "deval", "ieval", "getter", "setter", "valueof", "iife", "callres"}
+var CtxKinds = []string{"fdecl", "fexpr", "nfe", "mdot", "midx", "ctor", "bound", "call", "apply", "foreach", "deval", "ieval", "getter", "setter", "valueof", "iife", "callres", "hostcb"}
 
 // errorConstruct returns statements (to be placed in one body) the last of which raises.
 func (g *gen) errorConstruct(kind string) []N {
@@ -232,6 +232,32 @@ func (g *gen) errorConstruct(kind string) []N {
 			}
 			return append(out, c01.Throw(id(e)))
 		}
+	case "misc":
+		// other TypeErrors the interpreter or a built-in raises itself (15.2.3, 15.3.4.3-5, 15.3.5.3, 8.12.8)
+		o, f := g.fresh("o"), g.fresh("F")
+		obj := func(m string, args ...N) N { return c01.Expr(c01.Call(c01.Dot(id("Object"), m), args...)) }
+		switch g.pick(9) {
+		case 0:
+			return []N{obj("getPrototypeOf", num(1))}
+		case 1:
+			return []N{obj("create", num(1))}
+		case 2:
+			return []N{obj("defineProperty", num(1), str("a"), c01.Obj())}
+		case 3:
+			return []N{obj("defineProperty", c01.Obj(), str("a"), c01.Obj("get", num(1)))}
+		case 4:
+			return []N{obj("keys", c01.Null())}
+		case 5:
+			return []N{c01.Var(f, c01.Fn("", nil)), c01.Expr(c01.Call(c01.Dot(id(f), "apply"), c01.Null(), num(1)))}
+		case 6:
+			return []N{c01.Expr(c01.Call(c01.Dot(c01.Dot(id("z"), "call"), "call"), num(1)))}
+		case 7:
+			ret := func() N { return c01.Fn("", nil, c01.Return(c01.Obj())) }
+			return []N{c01.Var(o, c01.Obj("toString", ret(), "valueOf", ret())), c01.Expr(c01.Bin("+", id(o), num(1)))}
+		default:
+			return []N{c01.Var(f, c01.Fn("", nil)), c01.Expr(c01.Asg("=", c01.Dot(id(f), "prototype"), num(1))),
+				c01.Expr(c01.Bin("instanceof", c01.Obj(), id(f)))}
+		}
 	case "throwprim":
 		vs := []N{num(5), str("s"), c01.Null(), c01.Bool(true), num(-1), str("")}
 		return []N{c01.Throw(vs[g.pick(len(vs))])}
@@ -292,6 +318,8 @@ func (g *gen) context(kind string, body []N) (decls []N, inv N) {
 		return []N{c01.FDecl(f, nil, body...)}, c01.Call(c01.Dot(id(f), "apply"), c01.Null(), c01.Arr())
 	case "foreach":
 		return nil, c01.Call(c01.Dot(c01.Arr(num(0)), "forEach"), c01.Fn(g.fresh("cb"), nil, body...))
+	case "hostcb":
+		return nil, c01.Call(id("CB"), c01.Fn(g.fresh("cb"), nil, body...))
 	case "deval":
 		return nil, c01.EvalCall(true, body...)
 	case "ieval":
@@ -383,6 +411,13 @@ func (g *gen) scenario(i int) Scenario {
 	kinds := make([]string, depth)
 	for l := range kinds {
 		kinds[l] = CtxKinds[g.pick(len(CtxKinds))]
+		// An error leaves the Go function CB as a Go panic carrying the *otto.Error; that is sound only when
+		// Run returns it (a script catch block receives a converted value, and a thrown primitive has no
+		// *otto.Error at all - both are matters of the Go bridge, property C16): CB is used only where the
+		// exception is caught inside it or not at all, and never for thrown primitives.
+		for kinds[l] == "hostcb" && (prim || (catchLevel > depth-l-1 && catchLevel >= 0)) {
+			kinds[l] = CtxKinds[g.pick(len(CtxKinds))]
+		}
 	}
 	// build from the innermost context (index depth-1) outwards
 	for l := depth - 1; l >= 0; l-- {
